@@ -3,6 +3,7 @@ package main
 import (
 	"encoding/json"
 	"fmt"
+	"math"
 	"strconv"
 	"strings"
 
@@ -36,9 +37,15 @@ func (d docGen) num(x float64) interface{} {
 }
 
 var numPalette = []float64{1, 0, 2, 10, -1, 1.5}
+
+// rare numeric values: negative zero, beyond 2^53, huge, tiny
+var rareNums = []float64{math.Copysign(0, -1), 9007199254740993, 1e21, 1e-7, -1e308, 3}
 var strPalette = []string{"a", "b", "1", "x", ""}
 
 func (d docGen) leaf() interface{} {
+	if rn(40) == 39 {
+		return d.num(rareNums[rn(len(rareNums))])
+	}
 	switch rn(8) {
 	case 0, 1, 2:
 		return d.num(numPalette[rn(len(numPalette))])
@@ -111,7 +118,7 @@ func (d docGen) member() interface{} {
 
 // sizes around powers of two: thresholds in buffer management ("more than 16", "cap > 128")
 // are only reached by documents of those sizes
-var bigSizes = []int{17, 33, 65, 129, 130, 200, 257, 513}
+var bigSizes = []int{15, 16, 17, 31, 32, 33, 64, 65, 127, 128, 129, 130, 200, 256, 257, 513}
 
 // bigDoc builds a wide document: an array (or an object holding one) with many elements.
 func (d docGen) bigDoc() interface{} {
@@ -172,8 +179,14 @@ func (d docGen) doc(trap bool) interface{} {
 		}
 		return m
 	case 3:
+		if rn(12) == 11 {
+			return d.object(6, trap, 1+rn(3)) // deep
+		}
 		return d.object(3, trap, 1+rn(8))
 	case 4:
+		if rn(12) == 11 {
+			return d.array(6, trap, 1+rn(3))
+		}
 		return d.array(3, trap, rn(7))
 	}
 	// object "a" holding arrays (aggregate / value-group cases)
@@ -512,7 +525,12 @@ func (g *pathGen) anyFunc() (int, bool) {
 	return f, true
 }
 
-func num() string { return strconv.FormatFloat(numPalette[rn(len(numPalette))], 'g', -1, 64) }
+func num() string {
+	if rn(40) == 39 {
+		return strconv.FormatFloat(rareNums[rn(len(rareNums))], 'g', -1, 64)
+	}
+	return strconv.FormatFloat(numPalette[rn(len(numPalette))], 'g', -1, 64)
+}
 
 func literal() string {
 	switch rn(7) {
@@ -768,6 +786,9 @@ func genPath(funcs uint32, trap bool, maxSteps, maxFuncs int) *PathSpec {
 func genPathFor(doc interface{}, funcs uint32, trap bool, maxSteps, maxFuncs int) *PathSpec {
 	spec := &PathSpec{SingleValued: true}
 	g := &pathGen{funcs: funcs, trap: trap, spec: spec, cur: doc, aware: doc != nil}
+	if rn(12) == 11 {
+		maxSteps += 5 // now and then a long path
+	}
 	s := "$"
 	if chance(5) {
 		s = "" // the grammar allows omitting '$' before a name or bracket
